@@ -342,6 +342,20 @@ func init() {
 			}
 			return m.liveBytes(ex)
 		},
+		vrt + "PreemptAtLock": func(m *Machine, a []Val) Val {
+			k := a[0].(Int)
+			if !k.IsC() {
+				m.incon("PreemptAtLock: symbolic index")
+			}
+			f := a[1].(Func)
+			m.preemptAt, m.preemptFn, m.lockAcq, m.preemptRan = int(k.C), &f, 0, false
+			return nil
+		},
+		vrt + "PreemptRan": func(m *Machine, a []Val) Val {
+			r := m.preemptRan
+			m.preemptFn = nil
+			return CB(r)
+		},
 		vrt + "KeepSymbolicBounds": func(m *Machine, a []Val) Val { m.keepSymBounds = a[0].(Bool).C; return nil },
 
 		// ---- fmt / errors ----
@@ -483,9 +497,11 @@ func init() {
 
 		// ---- sync ----
 		"(*sync.Mutex).Lock": func(m *Machine, a []Val) Val {
+			m.maybePreempt()
 			c, ls := m.lockOf(a[0])
 			ls.other = false // waits until the other thread has released it
 			if ls.writer || ls.readers > 0 {
+				m.blockedOnOther(c)
 				m.ex.Fail("deadlock:Lock of a mutex already held (" + ls.name + ") in " + m.where())
 			}
 			ls.writer = true
@@ -493,6 +509,7 @@ func init() {
 			return nil
 		},
 		"(*sync.Mutex).TryLock": func(m *Machine, a []Val) Val {
+			m.maybePreempt()
 			c, ls := m.lockOf(a[0])
 			if ls.writer || ls.readers > 0 || ls.other {
 				return CB(false)
@@ -502,6 +519,7 @@ func init() {
 			return CB(true)
 		},
 		"(*sync.RWMutex).TryLock": func(m *Machine, a []Val) Val {
+			m.maybePreempt()
 			c, ls := m.lockOf(a[0])
 			if ls.writer || ls.readers > 0 {
 				return CB(false)
@@ -511,6 +529,7 @@ func init() {
 			return CB(true)
 		},
 		"(*sync.RWMutex).TryRLock": func(m *Machine, a []Val) Val {
+			m.maybePreempt()
 			c, ls := m.lockOf(a[0])
 			if ls.writer {
 				return CB(false)
@@ -529,8 +548,10 @@ func init() {
 			return nil
 		},
 		"(*sync.RWMutex).Lock": func(m *Machine, a []Val) Val {
+			m.maybePreempt()
 			c, ls := m.lockOf(a[0])
 			if ls.writer || ls.readers > 0 {
+				m.blockedOnOther(c)
 				m.ex.Fail("deadlock:Lock of an RWMutex already held (" + ls.name + ") in " + m.where())
 			}
 			ls.writer = true
@@ -547,8 +568,10 @@ func init() {
 			return nil
 		},
 		"(*sync.RWMutex).RLock": func(m *Machine, a []Val) Val {
+			m.maybePreempt()
 			c, ls := m.lockOf(a[0])
 			if ls.writer {
+				m.blockedOnOther(c)
 				m.ex.Fail("deadlock:RLock of an RWMutex write-held by the same goroutine (" + ls.name + ") in " + m.where())
 			}
 			ls.readers++
@@ -1059,4 +1082,52 @@ func (m *Machine) functionExists(name string) bool {
 		}
 	})
 	return fnIndex[name]
+}
+
+// maybePreempt: called before every lock acquisition attempt of the preempted thread A. At its k-th
+// attempt the registered operation B runs to completion (a context switch at a lock boundary).
+func (m *Machine) maybePreempt() {
+	if m.preemptFn == nil || m.inPreempt {
+		return
+	}
+	k := m.lockAcq
+	m.lockAcq++
+	if k != m.preemptAt {
+		return
+	}
+	f := *m.preemptFn
+	m.inPreempt = true
+	m.preemptRan = true
+	m.preHeld = map[*Cell]lockState{}
+	for c, ls := range m.locks {
+		if ls.writer || ls.readers > 0 {
+			m.preHeld[c] = *ls
+		}
+	}
+	held := m.heldOrder
+	m.heldOrder = nil
+	tr := m.trace
+	m.trace = nil
+	m.callFunction(f.Fn, nil, f.Env)
+	m.trace = tr
+	// B must have released what it took: the lock table is as it was
+	for c, ls := range m.locks {
+		was := m.preHeld[c]
+		if ls.writer != was.writer || ls.readers != was.readers {
+			m.ex.Fail("lock-leak: the interleaved operation returned holding " + ls.name)
+		}
+	}
+	m.heldOrder = held
+	m.inPreempt = false
+	m.preHeld = nil
+}
+
+// blockedOnOther: inside a preempted run, an acquisition that conflicts with a lock the suspended thread
+// A holds would block until A continues - this schedule (B completing before A resumes) does not exist.
+func (m *Machine) blockedOnOther(c *Cell) {
+	if m.inPreempt {
+		if _, ok := m.preHeld[c]; ok {
+			panic(pathEnd{"interleaving not schedulable: the interleaved operation blocks on a lock the suspended one holds"})
+		}
+	}
 }
